@@ -35,10 +35,9 @@ def dist_fix_point_cd(w, grad_ws, lipschitz_ws, datafit, penalty, ws):
     dist = np.zeros(ws.shape[0], dtype=w.dtype)
 
     for idx, j in enumerate(ws):
-        if lipschitz_ws[idx] == 0.:
-            continue
-
-        step_j = 1 / lipschitz_ws[idx]
+        # as in _cd_epoch: a large step when X[:, j] == 0, so that a non-zero penalised
+        # coefficient on an all-zero column is not scored as optimal
+        step_j = 1 / lipschitz_ws[idx] if lipschitz_ws[idx] != 0. else 1000.
         dist[idx] = np.abs(
             w[j] - penalty.prox_1d(w[j] - step_j * grad_ws[idx], step_j, j)
         )
@@ -89,10 +88,8 @@ def dist_fix_point_bcd(
         grad_g = grad_ws[grad_ptr: grad_ptr + len(grp_g_indices)]
         grad_ptr += len(grp_g_indices)
 
-        if lipschitz_ws[idx] == 0.:
-            continue
-
-        step_g = 1 / lipschitz_ws[idx]
+        # as in _cd_epoch: a large step when X[:, grp_g_indices] == 0
+        step_g = 1 / lipschitz_ws[idx] if lipschitz_ws[idx] != 0. else 1000.
         w_g = w[grp_g_indices]
         dist[idx] = norm(
             w_g - penalty.prox_1group(w_g - grad_g * step_g, step_g, g)
